@@ -267,6 +267,11 @@ func (maps *trackedMaps) processUnfiltered(ctx context.Context, ef *Filter, filt
 							newMaps.trackMap(&tMap{
 								value: f,
 							})
+						case fkind == reflect.Slice:
+							// a slice of slices: the inner slice's elements are filtered too
+							if err := ef.filterSliceElements(ctx, f, filterOverrides, newMaps, opt...); err != nil {
+								return fmt.Errorf("%s: unable to filter slice of slices: %w", op, err)
+							}
 						default:
 							// nothing reasonable yet...
 						}
